@@ -466,6 +466,10 @@ class Campaign:
                                  % (r["do"]["offset"], e["off"], la["ao"]), case)
                 if not la.get("minv", True) and not case.get("shared"):
                     ctx.mismatch("premise of apply_keeps_cache_in_step does not hold on a recorded state: functions_by_block does not mirror functionBlocks", case)
+                if not la.get("sinv", True) or not la.get("patch_ok", True):
+                    ctx.mismatch("premise of no_symbol_is_left_on_a_block_that_left_the_module does not hold on a recorded state: sinv=%s patch_ok=%s"
+                                 % (la.get("sinv"), la.get("patch_ok")), case)
+                ctx.count("premise:sinv+patch_ok")
                 if not la["ids_below"] or not la["new_blocks"]:
                     ctx.mismatch("premise of loop_is_listing does not hold on a recorded state: ids_below=%s new_blocks=%s"
                                  % (la["ids_below"], la["new_blocks"]), case)
